@@ -18,7 +18,13 @@ func dataFrameVariants() []avariant {
 			for _, sh := range []struct {
 				port int // 0 absent, 1 present with value 0, 2 present with value 1..255
 				m    int
-			}{{0, 0}, {1, 0}, {2, 0}, {1, 1}, {2, 1}, {2, 17}} {
+			}{{0, 0}, {1, 0}, {2, 0}, {1, 1}, {2, 1}, {2, 17}, {2, 242}} {
+				if sh.m == 242 && n != 0 && n != 15 {
+					continue // the maximum-size payload is analysed with no and with full FOpts only
+				}
+				if sh.m == 242 {
+					sh.m = 242 - n // MACPayload <= 250 bytes: N <= 242 - FOptsLen
+				}
 				if n > 0 && sh.port == 1 {
 					continue // FPort 0 is not allowed together with FOpts
 				}
@@ -56,6 +62,25 @@ func dataFrameVariants() []avariant {
 				out = append(out, v)
 			}
 		}
+	}
+	// stale bookkeeping: FCtrl.fOptsLen is unexported and recomputed by the encoder; a value left over from an
+	// earlier decode must not reach the wire (the encoder must derive the nibble from the FOpts actually present)
+	for _, n := range []int{0, 3} {
+		v := avariant{Name: fmt.Sprintf("mtype2/fopts%d/stale-foptslen", n), NoStream: true,
+			Dyn:    map[string]string{"MACPayload": ":MACPayload"},
+			Fix:    map[string]int64{"MHDR.MType": 2},
+			Lens:   map[string]int{},
+			NonNil: []string{"MACPayload.*.FPort"},
+			Where:  map[string][2]int64{"MACPayload.*.FPort.*": {1, 255}},
+			Equal:  [][2]string{{mpFHDR + ".FCtrl.ClassB", mpFHDR + ".FCtrl.FPending"}},
+			Ignore: []string{mpFHDR + ".FCtrl.fOptsLen"},
+			Size:   1 + 7 + n + 1 + 4}
+		if n > 0 {
+			v.Lens[mpFHDR+".FOpts"] = 1
+			v.Dyn[mpFHDR+".FOpts[0]"] = ":DataPayload"
+			v.Lens[mpFHDR+".FOpts[0].*.Bytes"] = n
+		}
+		out = append(out, v)
 	}
 	return out
 }
